@@ -431,6 +431,67 @@ def same_class_and_model_params_block(rep, r, tier):
                                "a plain field", source=repr(v), parameter=pv, expected=repr(exp), got=repr(got))
                         break
 
+    # ---- (d) sibling fields with the SAME pair of types but different rules: each field's coercion is looked up at its own
+    #      location (a rule addressed to one of them by path or by field predicate must not spill over to, or be lost for, the other)
+    from adaptix.conversion import coercer
+    Money = make_dataclass("Money", [("amount", int), ("currency", int)])
+    MoneyD = make_dataclass("MoneyD", [("amount", int), ("currency", int)])
+    Order = make_dataclass("Order", [("price", Money), ("discount", Money), ("created", int), ("updated", int)])
+    OrderD = make_dataclass("OrderD", [("price", MoneyD), ("discount", MoneyD), ("created", str), ("updated", str)])
+    sib_cases = [
+        ("constant-on-second-sibling", [link_constant(P[OrderD].discount.currency, value=777), coercer(int, str, str)],
+         lambda o: OrderD(MoneyD(o.price.amount, o.price.currency), MoneyD(o.discount.amount, 777), str(o.created), str(o.updated))),
+        ("constant-on-first-sibling", [link_constant(P[OrderD].price.currency, value=777), coercer(int, str, str)],
+         lambda o: OrderD(MoneyD(o.price.amount, 777), MoneyD(o.discount.amount, o.discount.currency), str(o.created), str(o.updated))),
+        ("coercer-for-second-sibling", [coercer(P[Order].updated, P[OrderD].updated, lambda v: f"<{v}>"), coercer(int, str, str)],
+         lambda o: OrderD(MoneyD(o.price.amount, o.price.currency), MoneyD(o.discount.amount, o.discount.currency), str(o.created), f"<{o.updated}>")),
+        ("coercer-for-first-sibling", [coercer(P[Order].created, P[OrderD].created, lambda v: f"<{v}>"), coercer(int, str, str)],
+         lambda o: OrderD(MoneyD(o.price.amount, o.price.currency), MoneyD(o.discount.amount, o.discount.currency), f"<{o.created}>", str(o.updated))),
+        ("swap-inside-second-sibling", [link(P[Order].discount.amount, P[OrderD].discount.currency), link(P[Order].discount.currency, P[OrderD].discount.amount),
+                                         coercer(int, str, str)],
+         lambda o: OrderD(MoneyD(o.price.amount, o.price.currency), MoneyD(o.discount.currency, o.discount.amount), str(o.created), str(o.updated))),
+    ]
+    for label, recipe, want in sib_cases:
+        ns = {"Order": Order, "OrderD": OrderD}
+        exec("def stub(o: Order) -> OrderD: ...", ns)  # noqa: S102
+        try:
+            conv = impl_converter(recipe=recipe)(ns["stub"])
+        except Exception as e:  # noqa: BLE001
+            report(f"siblings:creation:{label}", f"creating the converter raises {type(e).__name__}: {str(e)[:160]}")
+            continue
+        o = Order(Money(r.randint(1, 9), r.randint(10, 19)), Money(r.randint(20, 29), r.randint(30, 39)), r.randint(40, 49), r.randint(50, 59))
+        n += 1
+        try:
+            got = conv(o)
+        except Exception as e:  # noqa: BLE001
+            got = f"raises {type(e).__name__}: {str(e)[:80]}"
+        if got != want(o):
+            report(f"siblings:{label}", "two fields with the same pair of types: a rule addressed to one of them applies to exactly that one",
+                   source=repr(o), expected=repr(want(o)), got=repr(got))
+
+    # ---- (e) a recipe given with the call is honoured whatever the retort has built for the same pair before
+    import adaptix.conversion as conv_mod
+    Sp = make_dataclass("Sp", [("a", int), ("b", int)])
+    Dp = make_dataclass("Dp", [("a", int), ("b", int)])
+    swap = [link(P[Sp].b, P[Dp].a), link(P[Sp].a, P[Dp].b)]
+    for first in ("convert", "get_converter", "nothing"):
+        rt = conv_mod.ConversionRetort()
+        if first == "convert":
+            rt.convert(Sp(1, 2), Dp)
+        elif first == "get_converter":
+            rt.get_converter(Sp, Dp)
+        n += 2
+        for label, call, want in (("convert(recipe=)", lambda: rt.convert(Sp(1, 2), Dp, recipe=swap), Dp(2, 1)),
+                                  ("get_converter(recipe=)", lambda: rt.get_converter(Sp, Dp, recipe=swap)(Sp(1, 2)), Dp(2, 1)),
+                                  ("convert() afterwards", lambda: rt.convert(Sp(1, 2), Dp), Dp(1, 2))):
+            try:
+                got = call()
+            except Exception as e:  # noqa: BLE001
+                got = f"raises {type(e).__name__}: {str(e)[:80]}"
+            if got != want:
+                report(f"per-call-recipe:{label}", f"after {first} without a recipe on the same retort, {label} gives {got!r}; the links of the "
+                       f"recipe passed with the call decide: {want!r}")
+
     # ---- (c) an optional destination field left unlinked (allow_unlinked_optional) in the MIDDLE of the parameter list:
     #      every later field still receives its own source (by name, by link, from a parameter)
     from adaptix.conversion import allow_unlinked_optional
